@@ -119,6 +119,8 @@ def gen_core(out):
     for st in inner_fn(setter, "setfn", ["el", "value"]):
         if isinstance(st, ast.Expr) and is_call(st.value, "clearprops", 0):
             ssteps.append("SClear")
+        elif isinstance(st, ast.Expr) and is_call(st.value, "loader", 0):
+            ssteps.append("SLoad")
         elif isinstance(st, ast.Expr) and is_call(st.value, "setattr", 3) and is_name(st.value.args[0], "el") \
                 and is_name(st.value.args[1], "propname") and is_name(st.value.args[2], "value"):
             ssteps.append("SSetattr")
@@ -344,6 +346,11 @@ class Script:
         if isinstance(v, (ast.BinOp, ast.UnaryOp, ast.Compare, ast.BoolOp, ast.JoinedStr)):
             return "VKImm"
         if isinstance(v, ast.IfExp):
+            none = lambda x: isinstance(x, ast.Constant) and x.value is None
+            if none(v.orelse) and not none(v.body):      # `copy if x is not None else None`
+                return self.vkind(v.body, node)
+            if none(v.body) and not none(v.orelse):
+                return self.vkind(v.orelse, node)
             ks = {self.vkind(v.body, node), self.vkind(v.orelse, node)}
             need(len(ks) == 1, "%s: conditional value of two kinds" % self.where)
             return ks.pop()
@@ -495,6 +502,22 @@ class Script:
             need(len(st.body) == 1 and isinstance(st.body[0], ast.Return) and st.body[0].value is None and not st.orelse,
                  "%s: guard does not simply return" % self.where)
             self.emit("EGuard %s" % cstr(self.props_test(t.values[0])))
+            return
+        # if table is not default_table(): getattr(default_table()[0], 'lazy', None)
+        if isinstance(t, ast.Compare) and len(t.ops) == 1 and isinstance(t.ops[0], ast.IsNot) \
+                and self.kind(t.left) == "table" and is_call(t.comparators[0], "default_table", 0):
+            need(len(st.body) == 1 and not st.orelse and isinstance(st.body[0], ast.Expr)
+                 and is_call(st.body[0].value, "getattr", 3), "%s: `if table is not default_table()` body" % self.where)
+            g = st.body[0].value
+            need(isinstance(g.args[0], ast.Subscript) and is_call(g.args[0].value, "default_table", 0)
+                 and isinstance(g.args[0].slice, ast.Constant) and g.args[0].slice.value == 0
+                 and isinstance(g.args[1], ast.Constant) and g.args[1].value in self.lazy
+                 and isinstance(g.args[2], ast.Constant) and g.args[2].value is None,
+                 "%s: not getattr(default_table()[0], <lazy name>, None)" % self.where)
+            need(any(isinstance(n, ast.ImportFrom) and n.level == 1 and n.module == "core"
+                     and any(a.name == "default_table" and a.asname is None for a in n.names) for n in self.tree.body),
+                 "%s: default_table is not core.default_table" % self.where)
+            self.emit("ETouchPublic %s" % cstr(g.args[1].value))
             return
         # if not hasattr(x, 'a'): x.a = v
         if isinstance(t, ast.UnaryOp) and isinstance(t.op, ast.Not) and is_call(t.operand, "hasattr", 2) \
